@@ -45,6 +45,8 @@ def _features(l, r, same_obj):
         f.add('repeated-output')
     if set(l.gates) & set(r.gates):
         f.add('shared-labels')
+    if set(l.inputs) == set(r.inputs) and list(l.inputs) != list(r.inputs):
+        f.add('same-input-labels-other-order')
     if same_obj:
         f.add('same-object')
     if l.blocks or r.blocks:
@@ -156,6 +158,9 @@ def _worker(task):
                 pair(l, r)                                   # shared labels
                 if (a + b) % 2 == 0:
                     pair(l, _rename(r, 'r_'))                # disjoint labels
+                if len(r.inputs) >= 2 and (a + 2 * b) % 3 == 0:
+                    # same input LABELS listed in a different order: circuits are compared by input POSITION, not by label
+                    pair(l, N.Net(list(reversed(r.inputs)), r.outputs, r.gates, blocks=r.blocks))
             if a % parts == part:
                 pair(l, l, same=True)
     elif kind == 'wide':
@@ -216,7 +221,7 @@ def run_bounded(rep, quick):
     rep.bounded_driver(
         NAME, 'build_miter(l, r) for pairs of equal shape from the pool of all circuits with n inputs and <=K gates over '
         f'{list(ALPHA)} x 5 output selections (1..3 outputs, outputs that are inputs, repeated outputs), with shared and with disjoint '
-        'labels, l is r, and seeded random pairs (0..3 inputs, <=6 gates, operand blocks): input count, one output, value under the spec '
+        'labels, with the same input labels listed in another order, l is r, and seeded random pairs (0..3 inputs, <=6 gates, operand blocks): input count, one output, value under the spec '
         'evaluator (fold semantics) == "output vectors differ" for every assignment in the left input order, the real Circuit.evaluate '
         'of the miter returns the same and does not raise, both operands unmodified (gates, order, users, blocks); '
         'non-trivial = distinct (left, right) pair',
